@@ -221,7 +221,8 @@ os_shim = _OsShim()
 def open_shim(path: Any, mode: str = "r", *a: Any, **k: Any) -> Any:
     if FS is None:
         return open(path, mode, *a, **k)
-    return FS.open(path, mode)
+    buffering = k.get("buffering", a[0] if a else -1)
+    return FS.open(path, mode, buffering)
 
 
 # ---------------------------------------------------------------- install
